@@ -444,8 +444,10 @@ def check_census(root, *, require_owned=False):
             except Exception:
                 continue
             between = toks[a + 1:b]
-            odd = [t for t in between if not (isinstance(t, intro.Placeholder) or isinstance(t, models.Newline))]
-            if odd or sum(1 for t in between if isinstance(t, models.Newline)) != 1:
+            # comments somebody released by hand (unowned) may sit in between, each on its own line
+            loose = [t for t in between if isinstance(t, models.BlockComment) and not t.claimed]
+            odd = [t for t in between if not (isinstance(t, intro.Placeholder) or isinstance(t, models.Newline) or any(t is x for x in loose))]
+            if odd or sum(1 for t in between if isinstance(t, models.Newline)) != 1 + len(loose):
                 kinds = [type(t).__name__ for t in between]
                 bad.append((f'{o[0]}-comment-not-adjacent' + (':across-dedent-mark' if any(isinstance(t, models.DedentMark) for t in between) else ''),
                             f'{o[0]} comment of {type(m).__name__} is separated from it by {kinds}'))
@@ -463,7 +465,8 @@ CLASS = {'D': 0, 'T': 0, 'P': 1, 'M': 1, 'C': 0, 'I': 1}
 
 
 def layout_text(lay):
-    return ''.join((LINES[c] + (str(i) if c in 'CI' else '')) + '\n' for i, c in enumerate(lay))
+    # every third blank line is a line of blanks only (a blank line all the same)
+    return ''.join((LINES[c] + (str(i) if c in 'CI' else '') + ('    ' if c == 'B' and i % 3 == 1 else '')) + '\n' for i, c in enumerate(lay))
 
 
 def rule(lay):
